@@ -318,7 +318,10 @@ func (e *EventPublisher) Subscribe(req *SubscribeRequest) (*Subscription, error)
 
 		topicBuf.refs--
 
-		if topicBuf.refs == 0 {
+		// RefreshTopic/RefreshAllTopics may have dropped this buffer and a later
+		// subscriber may have created a new one under the same key: only remove the
+		// map entries if they still belong to this buffer.
+		if topicBuf.refs == 0 && e.topicBuffers[req.topicSubject()] == topicBuf {
 			delete(e.topicBuffers, req.topicSubject())
 
 			// Evict cached snapshot too because the topic buffer will have been spliced
@@ -461,12 +464,22 @@ func (e *EventPublisher) setCachedSnapshotLocked(req *SubscribeRequest, snap *ev
 	})
 }
 
-// forceEvictByTopicLocked will remove all entries from the snapshot cache for a given topic.
+// forceEvictByTopicLocked will remove all entries from the snapshot cache and all
+// topic buffers for a given topic. The topic buffers hold events of the state that
+// is being replaced: a subscriber that (re)subscribes before every subscriber of the
+// old buffer has unsubscribed must not be spliced onto it (it would be handed events
+// of the replaced state after its new snapshot, or resume on them without a snapshot).
+// The subscriptions still reading the old buffers are force-closed by the caller.
 // This method should be called while holding the EventPublisher's lock.
 func (e *EventPublisher) forceEvictByTopicLocked(topic Topic) {
 	for key := range e.snapCache {
 		if key.Topic == topic.String() {
 			delete(e.snapCache, key)
+		}
+	}
+	for key := range e.topicBuffers {
+		if key.Topic == topic.String() {
+			delete(e.topicBuffers, key)
 		}
 	}
 }
